@@ -91,7 +91,6 @@ fn check_marginalize<const D: usize>(shape: [usize; D], axes: &[usize]) {
     }
     assert!(total == scs.sum(), "total mass is preserved");
 }
-}
 
 // one marginalize call per harness (several calls in one harness exceeded 30 min / 6 GB)
 macro_rules! marg {
